@@ -21,22 +21,28 @@ from mirse.models.bytesm import WIRE
 MENU = [('get', 0x00, 1, 0, 0, False), ('getq', 0x09, 1, 0, 0, True), ('set', 0x01, 1, 8, 1, False), ('setq', 0x11, 1, 8, 1, True),
         ('noop', 0x0a, 0, 0, 0, False), ('touch', 0x1c, 1, 4, 0, False), ('quit', 0x07, 0, 0, 0, False), ('quitq', 0x17, 0, 0, 0, True),
         ('delete', 0x04, 1, 0, 0, False), ('incr', 0x05, 1, 20, 0, False), ('gatq', 0x1e, 1, 4, 0, True), ('version', 0x0b, 0, 0, 0, False),
-        ('deleteq', 0x14, 1, 0, 0, True), ('flush', 0x08, 0, 0, 0, False), ('add', 0x02, 1, 8, 1, False), ('appendq', 0x19, 1, 0, 1, True)]
+        ('deleteq', 0x14, 1, 0, 0, True), ('flush', 0x08, 0, 0, 0, False), ('add', 0x02, 1, 8, 1, False), ('appendq', 0x19, 1, 0, 1, True),
+        ('bigset', 0x01, 1, 8, 1016, False)]     # body 1025: oversized when the item limit is 1024
 
 
 def frame_len(e):
     return 24 + e[2] + e[3] + e[4]
 
 
-def lay_out(E, ops):
-    """assume the wire holds the chosen frames back to back; returns [(offset, menu entry, opaque)]"""
+def lay_out(E, ops, magic=None):
+    """assume the wire holds the chosen frames back to back; returns [(offset, menu entry, opaque)]
+    magic: {frame index: BV8 term} replaces the magic byte of that frame"""
     off = 0
     out = []
     for i, k in enumerate(ops):
         e = MENU[k]
         hdr = struct.pack('>BBHBBHIIQ', 0x80, e[1], e[2], e[3], 0, 0, e[2] + e[3] + e[4], 0x100 + i, 0)
         for j, b in enumerate(hdr):
+            if j == 0 and magic and i in magic:
+                E.assume(z3.Select(WIRE, BV(off)) == magic[i])
+                continue
             E.assume(z3.Select(WIRE, BV(off + j)) == b)
+            E.known_bytes[off + j] = b
         if e[2]:
             E.assume(z3.Select(WIRE, BV(off + 24 + e[3])) == ord('k'))
         out.append((off, e, 0x100 + i))
